@@ -12,6 +12,10 @@ Tie to the source
     property statement, against the real public API over exhaustive short histories and random ones,
     with the real cgi.FieldStorage, text/json setters, readline/read1/readinto/iteration on body_file,
     legacy webob.is_body_readable, and WSGI applications reading through call_application.
+  * statefulness: histories are also run through several long-lived / brand-new Request wrappers over ONE environ, with
+    the environ's flags flipped, wsgi.input replaced and the class-level temp-file limit changed mid-history; two
+    independent live requests are interleaved in one process (oracle_two, and run_impl2 against the model world
+    init_world2); a batch of cases is run forward, reversed and shuffled.
 """
 import io
 import itertools
